@@ -606,6 +606,36 @@ fn gen_pd(r: &mut Rng, depth: u32, quirks: bool) -> P {
         }
     }
 }
+/// data for the BasicConversions direction: byte strings that are / are not UTF-8, with / without control characters
+fn gen_pd_basic(r: &mut Rng, depth: u32) -> P {
+    let bytes = |r: &mut Rng| -> Vec<u8> {
+        match r.below(10) {
+            0 => vec![0xc2, 0x80 + r.below(0x40) as u8],
+            1 => vec![b'a', 0x7f], 2 => vec![0x1f, b'b'], 3 => vec![0xe0, 0x9f, 0x80], 4 => vec![0xed, 0xa0, 0x80],
+            5 => "\u{e9}\u{4e2d}\u{1F600}".as_bytes().to_vec(), 6 => vec![0xf4, 0x90, 0x80, 0x80], 7 => vec![0xc0, 0x80],
+            8 => { let n = r.below(6) as usize; r.bytes(n) }
+            _ => gen_str_plain(r).into_bytes(),
+        }
+    };
+    let k = if depth == 0 { r.below(5) } else { r.below(10) };
+    match k {
+        0 | 1 => P::Int(gen_bigint(r)),
+        2 | 3 | 4 => P::Bytes(bytes(r)),
+        5 | 6 => { let n = r.below(4) as usize; P::List((0..n).map(|_| gen_pd_basic(r, depth - 1)).collect()) }
+        7 => { let n = r.below(3) as usize; P::Constr(r.u64_edge(), (0..n).map(|_| gen_pd_basic(r, depth - 1)).collect()) }
+        _ => {
+            let n = r.below(4) as usize;
+            let mut l: Vec<(P, Vec<P>)> = Vec::new();
+            for _ in 0..n {
+                let key = if r.chance(1, 8) { gen_pd_basic(r, depth - 1) } else if r.chance(1, 2) { P::Int(gen_bigint(r)) } else { P::Bytes(bytes(r)) };
+                if l.iter().any(|(k, _)| *k == key) { continue; }
+                let nv = match r.below(10) { 0 => 0, 1 => 2, _ => 1 };
+                l.push((key, (0..nv).map(|_| gen_pd_basic(r, depth - 1)).collect()));
+            }
+            P::Map(l)
+        }
+    }
+}
 /// JSON in (or near) the detailed plutus schema
 fn gen_j_pdetailed(r: &mut Rng, depth: u32, wild: bool) -> J {
     let one = |k: &str, v: J| J::Obj(vec![(k.to_string(), v)]);
@@ -712,6 +742,17 @@ fn gen(dir: &str) {
         let d = r.below(4) as u32;
         let j = gen_j_pdetailed(&mut r, d, i % 2 == 0);
         emit_json_case(&mut out, "j2p", "2", &j);
+    }
+    // plutus BasicConversions (modelled, no round-trip claim in the property)
+    for _ in 0..150 * scale {
+        let d = r.below(3) as u32;
+        let p = gen_pd_basic(&mut r, d);
+        emit_line(&mut out, &format!("p2j 1 {}", p_tokens(&p)));
+    }
+    for _ in 0..150 * scale {
+        let d = r.below(3) as u32;
+        let j = gen_j_plain(&mut r, d);
+        emit_json_case(&mut out, "j2p", "1", &j);
     }
     // hand-written serde string forms
     for _ in 0..80 * scale {
